@@ -148,7 +148,7 @@ EvalD(a, env, d) ==
          ELSE IF a.n \in DOMAIN env.equs /\ d > 0 THEN EvalD(env.equs[a.n], env, d - 1)
          ELSE Err
     [] a.t = "par" -> EvalD(a.e, env, d)
-    [] a.t = "arg" -> Err                                \* a parameter outside a macro body
+    [] a.t \in {"arg", "bad"} -> Err                     \* a parameter outside a macro body / without argument
     [] a.t = "un"  -> LET x == EvalD(a.e, env, d) IN Comb(x, x, UnOp(a.op, x.v))
     [] a.t = "fn"  -> LET x == EvalD(a.e, env, d) IN Comb(x, x, FnOp(a.f, x.v))
     [] a.t = "bin" -> LET x == EvalD(a.l, env, d)
